@@ -360,6 +360,9 @@ type Store struct {
 
 	// Before, when set, is called before every operation while counting (C20 parks here).
 	Before func(op, key string)
+	// After, when set, is called after every operation that passed through while counting
+	// (C20 parks here too: the window between a store access and what the handler does next).
+	After func(op, key string)
 }
 
 // NewStore wraps base.
@@ -453,7 +456,11 @@ func (s *Store) record(logging bool, r OpRec) {
 	}
 	s.mu.Lock()
 	s.log = append(s.log, r)
+	after := s.After
 	s.mu.Unlock()
+	if after != nil && r.Fault == "" {
+		after(r.Op, r.Key)
+	}
 }
 
 // Get implements samlidp.Store.
